@@ -54,6 +54,8 @@ def oracle_c01(c):
         if not same(c.mod["data"], c.real["data"]): pr.append("data differs from the execution algorithm's result")
         if sorted(map(canon_call, c.real["calls"])) != sorted(map(canon_call, c.mod["calls"])): pr.append("resolver calls (coordinate, path, parent, arguments) differ from the algorithm's")
     pr += [p for p in orc.check_conforms(c.b.model, c.doc, c.op, c.variables, c.real["data"]) if p.startswith("keys ")]
+    # "... and the caller's context": these requests are sent WITHOUT a context, every resolver must see None
+    if any(call.get("ctx") is not None for call in c.real["calls"]): pr.append("a resolver received a context object although the caller passed none")
     return pr
 
 def returned_exception_paths(c):
@@ -78,6 +80,13 @@ def oracle_c02(c):
         if p not in reported and (algo is None or p in algo):
             pr.append(f"a resolver returned an exception instance at {p}: no error with that path is reported")
     pr += [p for p in orc.check_conforms(c.b.model, c.doc, c.op, c.variables, c.real["data"]) if p.startswith("null at non-null")]
+    # "exceptions derived from the library's error class keep their user message and extensions"
+    for call in c.real["calls"]:
+        spec = (c.renv.get("resolvers") or {}).get(call["coord"]) or {}
+        if spec.get("k") == "raise" and spec["v"].get("x") and not spec["v"].get("multi") and not spec["v"].get("foreign"):
+            for e in c.real["errors"]:
+                if e["path"] == list(call["path"]) and e["message"] != spec["v"]["m"]:
+                    pr.append(f"the library error raised at {call['path']} is reported with message {e['message']!r}, its user message is {spec['v']['m']!r}"); break
     # "exactly the nearest nullable enclosing position becomes null and every other part of data is what it would be without
     # the failure": the data the failure rules prescribe is the execution algorithm's (Impl/Exec.lean run on this request)
     if c.mod and "fail" not in c.mod and not same(c.mod["data"], c.real["data"]):
@@ -212,7 +221,7 @@ def nontrivial(pid, c):
 
 ENGINE_CONFIGS = [{"coerce_parent_concurrently": False}, {"coerce_list_concurrently": False}, {"parent_concurrently": False}, {"list_concurrently": False},
                   {"coerce_parent_concurrently": False, "coerce_list_concurrently": False, "parent_concurrently": False, "list_concurrently": False},
-                  {"mixed": 1}, {"mixed": 2, "coerce_parent_concurrently": False}]
+                  {"mixed": 1}, {"mixed": 2, "coerce_parent_concurrently": False}, {"sync_arguments": True}, {"sync_arguments": True, "list_concurrently": False}]
 
 PROFILES = {
     "C01": dict(adv=0.0, fail=0.0, inv=0.0, schemas=(25, 300), docs=(60, 150)),
